@@ -69,6 +69,10 @@ def gen_plan(rng, index, tier):
                 if rng.random() < 0.7:
                     uid += 1
                     steps.append({"op": "edit", "u": uid, "which": "power", "idx": rng.randrange(1000)})
+                if rng.random() < 0.6:
+                    # the quantity the solver recomputes holds block-by-block values (they differ from ring to ring)
+                    uid += 1
+                    steps.append({"op": "edit", "u": uid, "which": "vVol", "idx": rng.randrange(1000)})
                 steps.append(s)
                 if rng.random() < 0.7:
                     uid += 1
